@@ -1,45 +1,76 @@
 -------------------------------- MODULE LOBPCG --------------------------------
 (***************************************************************************)
-(* contrib/LOBPCGSolver.h (C17): shape algebra of the iteration.  Every     *)
-(* matrix is a pair <<rows, cols>>; products and concatenations carry their *)
-(* conformability conditions.  The Rayleigh-Ritz problem on [X R D] has     *)
-(* order k + 2 b (k + b in the first iteration), b = active block size; its *)
-(* coefficient matrix is (k + 2b) x k.  V_ReturnIterate = FALSE is the      *)
-(* design in which eigenvectors() returns that coefficient matrix (negative *)
-(* control).                                                                *)
+(* contrib/LOBPCGSolver.h (C17): one solver object through a sequence of    *)
+(* public calls - compute(), setB(), compute() again - and, inside          *)
+(* compute(), the shape algebra of the iteration.                           *)
+(*                                                                          *)
+(* Shapes: every matrix is a pair <<rows, cols>>; products and              *)
+(* concatenations carry their conformability conditions.  The Rayleigh-Ritz *)
+(* problem on [X R D] has order k + 2 b (k + b in the first iteration),     *)
+(* b = active block size; its coefficient matrix is (k + 2b) x k.           *)
+(*                                                                          *)
+(* Calls: compute() B-orthonormalises the iterate X against the B that is   *)
+(* in force NOW (xB = bver), iterates, and reports a status.  The status    *)
+(* must describe THIS call: Success only if this call's final residual test *)
+(* passed.  setB() installs another B (bver + 1): the block X the object    *)
+(* holds is no longer B-orthonormal, which only the next compute() repairs. *)
+(*                                                                          *)
+(* Variants (negative controls):                                            *)
+(*   V_ReturnIterate = FALSE  eigenvectors() returns the coefficient matrix *)
+(*   V_ResetInfo     = FALSE  compute() leaves the status of the previous   *)
+(*                            call in place when it does not converge       *)
+(*   V_Reorth        = FALSE  compute() skips the initial orthonormalisation*)
+(*                            when the previous call succeeded ("warm start")*)
 (***************************************************************************)
 EXTENDS LOBPCGOps
-CONSTANTS NMax, MaxIt, V_ReturnIterate
-VARIABLES n, k, b, iter, X, coef, resid, info, pc
-vars == <<n, k, b, iter, X, coef, resid, info, pc>>
+CONSTANTS NMax, MaxIt, MaxCalls, V_ReturnIterate, V_ResetInfo, V_Reorth
+VARIABLES n, k, b, iter, X, coef, resid, info, pc, calls, conv, bver, xB
+vars == <<n, k, b, iter, X, coef, resid, info, pc, calls, conv, bver, xB>>
 
 Init ==
     /\ n \in 6 .. NMax /\ k \in 1 .. NMax /\ 5 * k < n
-    /\ b = k /\ iter = 0 /\ X = <<n, k>> /\ coef = <<k, k>> /\ resid = <<n, k>> /\ info = "InvalidInput" /\ pc = "loop"
+    /\ b = k /\ iter = 0 /\ X = <<n, k>> /\ coef = <<k, k>> /\ resid = <<n, k>> /\ info = "InvalidInput" /\ pc = "idle"
+    /\ calls = 0 /\ conv = FALSE /\ bver = 0 /\ xB = -1      \* xB: the version of B the block X is orthonormal against (-1: none)
+
+\* compute(): the status of this call starts as "not converged"; X is orthonormalised against the current B
+Compute ==
+    /\ pc = "idle" /\ calls < MaxCalls
+    /\ pc' = "loop" /\ calls' = calls + 1 /\ iter' = 0 /\ b' = k /\ conv' = FALSE
+    /\ info' = IF V_ResetInfo THEN "NoConvergence" ELSE info
+    /\ xB' = IF V_Reorth \/ info # "Success" THEN bver ELSE xB
+    /\ UNCHANGED <<n, k, X, coef, resid, bver>>
+\* setB(): between calls
+SetB == pc = "idle" /\ calls < MaxCalls /\ bver < MaxCalls /\ bver' = bver + 1 /\ UNCHANGED <<n, k, b, iter, X, coef, resid, info, pc, calls, conv, xB>>
 
 \* one iteration: residuals n x k, convergence test gives the new active block size, Rayleigh-Ritz of order k + b (+ b with directions)
 Iterate ==
     /\ pc = "loop" /\ iter < MaxIt
     /\ \E nb \in 0 .. k :
           IF nb = 0
-          THEN pc' = "done" /\ info' = "Success" /\ UNCHANGED <<b, iter, X, coef, resid>>
+          THEN pc' = "idle" /\ info' = "Success" /\ conv' = TRUE /\ UNCHANGED <<b, iter, X, coef, resid>>
           ELSE /\ L_BlockOK(k, nb)
                /\ b' = nb /\ iter' = iter + 1
                /\ coef' = L_Coef(k, iter, nb)
                /\ X' = Mul(<<n, k>>, <<k, k>>)                 \* X * eVecX (+ R eVecR + D eVecD, all n x k)
                /\ resid' = <<n, k>>
-               /\ UNCHANGED <<info, pc>>
-    /\ UNCHANGED <<n, k>>
+               /\ UNCHANGED <<info, pc, conv>>
+    /\ UNCHANGED <<n, k, calls, bver, xB>>
 \* the loop ran out of iterations: the final residual test decides the status
 Finish ==
     /\ pc = "loop" /\ iter >= MaxIt
-    /\ \E conv \in BOOLEAN : info' = IF conv THEN "Success" ELSE info
-    /\ pc' = "done" /\ UNCHANGED <<n, k, b, iter, X, coef, resid>>
-Next == Iterate \/ Finish
+    /\ \E c \in BOOLEAN : conv' = c /\ info' = IF c THEN "Success" ELSE info
+    /\ pc' = "idle" /\ UNCHANGED <<n, k, b, iter, X, coef, resid, calls, bver, xB>>
+Next == Compute \/ SetB \/ Iterate \/ Finish
 Spec == Init /\ [][Next]_vars
 
+Returned == pc = "idle" /\ calls > 0
 Eigenvectors == IF V_ReturnIterate THEN X ELSE coef
-EigenvectorsShape == pc = "done" => Eigenvectors = <<n, k>>
+EigenvectorsShape == Returned => Eigenvectors = <<n, k>>
 ResidualsShape == resid = <<n, k>>
 Conformable == X # <<0, 0>>
+\* C17: "when the solver reports success ... residuals below tol; if it does not report success the status says so":
+\* the status describes the call that just returned, whatever happened on the object before
+StatusDescribesThisCall == Returned => ((info = "Success") = conv)
+\* the block the iteration works on is orthonormal in the inner product of the B in force
+IterateIsBOrthonormal == pc = "loop" => xB = bver
 =============================================================================
